@@ -1,6 +1,7 @@
 (* C05 — built transactions conserve value exactly.  Pinned statements only (proofs: Builder/*Proofs.v). *)
 From CSL Require Import Base.Prelude Base.U64 Num.Value Deposits.Deposits Builder.Totals Builder.TotalsProofs
-  Builder.Change Builder.ChangeProofs Builder.Scenario Builder.ScenarioProofs.
+  Builder.Change Builder.ChangeProofs Builder.Scenario Builder.ScenarioProofs Builder.MoreEntry Builder.MoreEntryProofs.
+From CSL Require Collateral.Collateral.
 From Coq Require Import Permutation.
 Local Open Scope N_scope.
 
@@ -75,6 +76,54 @@ Theorem C05_history_change : forall (utxos : list (N * value)) (cfg : config) (x
 Proof. exact history_change. Qed.
 Print Assumptions C05_history_change.
 
+(* ---- phase 2: the remaining entry points ---- *)
+
+(* add_inputs_from_and_change_with_collateral_return (joint model: builder state x collateral state, any oracles) *)
+Theorem C05_collateral_entry : forall (O : Type) (orc : @oracle O), oracle_u64 orc ->
+  forall (ask_col : Collateral.output -> O -> result N * O)
+         (fuel : nat) (utxos : list (N * value)) (addr extra : N) (addr_b : bytes) (pct : N)
+         (s : state) (c : colstate) (o : O),
+  state_wf s -> utxos_wf utxos ->
+  jo_res (percent_entry orc ask_col fuel utxos addr extra addr_b pct s c o) = Ok tt ->
+  state_wf (jo_st (percent_entry orc ask_col fuel utxos addr extra addr_b pct s c o)) /\
+  ledger_balanced (c_pool_deposit (s_cfg s)) (c_key_deposit (s_cfg s))
+                  (body_of (jo_st (percent_entry orc ask_col fuel utxos addr extra addr_b pct s c o))).
+Proof. exact (@percent_entry_balanced). Qed.
+Print Assumptions C05_collateral_entry.
+
+(* its collateral side is C19's percent_helper, run with the balancing outcome that the C05 model computes (not given) and
+   the min-ADA function read off the oracle: C19's theorems about fields 13/16/17 apply to the joint model *)
+Theorem C05_collateral_is_c19 : forall (O : Type) (orc : @oracle O)
+  (ask_col : Collateral.output -> O -> result N * O)
+  (fuel : nat) (utxos : list (N * value)) (addr extra : N) (addr_b : bytes) (pct : N) (s : state) (c : colstate) (o : O),
+  let bal := add_inputs_from_and_change orc fuel utxos addr extra s o in
+  let r := percent_entry orc ask_col fuel utxos addr extra addr_b pct s c o in
+  (out_res bal <> Panic /\ out_res bal <> OutOfFuel) ->
+  let h := Collateral.percent_helper (fun out => fst (ask_col out (out_orc bal))) pct addr_b
+             (is_ok (out_res bal)) (get_fee_if_set (out_st bal)) (to_c19 s c) in
+  (match Collateral.total_value (cs_inputs c) with Ok _ => to_c19 (jo_st r) (jo_col r) = snd h | _ => jo_col r = clear_col c end) /\
+  (fst h = true <-> jo_res r = Ok tt).
+Proof. exact (@percent_entry_is_c19). Qed.
+Print Assumptions C05_collateral_is_c19.
+
+(* histories over the extended operation set: + set_collateral, the collateral entry point, add_mint_asset_and_output,
+   add_mint_asset_and_output_min_required_coin, add_mint_asset, set_mint, set_certs, set_withdrawals *)
+Theorem C05_histories2 : forall (utxos : list (N * value)) (cfg : config) (l : list (op2 * tape_state))
+  (rs : list opres) (s : state) (c : colstate) (body : tx_body),
+  utxos_wf utxos -> Forall op2_wf (map fst l) ->
+  run_ops2 utxos l (new_state cfg) col_new = (rs, s, c, Some body) ->
+  ledger_balanced (c_pool_deposit cfg) (c_key_deposit cfg) body.
+Proof. exact histories2_balanced. Qed.
+Print Assumptions C05_histories2.
+
+Theorem C05_history2_balancing : forall (utxos : list (N * value)) (cfg : config) (x : op2) (s : state) (c : colstate) (o : tape_state),
+  utxos_wf utxos -> WF cfg s -> op2_wf x ->
+  (exists v, fst (fst (fst (run_op2 utxos x s c o))) = RBool v) \/
+  ((exists avail addr extra addr_b pct, x = OpPercent avail addr extra addr_b pct) /\ fst (fst (fst (run_op2 utxos x s c o))) = ROk) ->
+  ledger_balanced (c_pool_deposit cfg) (c_key_deposit cfg) (body_of (snd (fst (fst (run_op2 utxos x s c o))))).
+Proof. exact history2_balancing. Qed.
+Print Assumptions C05_history2_balancing.
+
 (* the rule does not depend on the order of inputs, outputs, certificates, withdrawals, proposals *)
 Theorem C05_order : forall (pd kd : N) (b b' : tx_body),
   Permutation (b_inputs b) (b_inputs b') -> Permutation (b_outputs b) (b_outputs b') ->
@@ -109,3 +158,5 @@ Print Assumptions C05_mint_min_int_refuted.
    donation, change split into an asset output and a pure-ADA output, build) runs through and is balanced *)
 Check scenario_example.
 Check scenario_example_premises.
+Check scenario2_example.
+Check scenario2_example_premises.
